@@ -37,9 +37,10 @@ import (
 //	        symbolic link (it is untracked, a phantom directory, or not listed);
 //	        the same holds for entries of an unsupported type and entries whose
 //	        name cannot be recorded;
-//	(plan)  with that snapshot as one endpoint - the other endpoint lacks "e" or
-//	        has a file there; "e" never synchronized before / its synchronized
-//	        part synchronized before; every mode - the real
+//	(plan)  with that snapshot as one endpoint - the other endpoint lacks "e", has
+//	        a file there, or has what was synchronized before minus "e/s/k";
+//	        "e" never synchronized before / its synchronized part synchronized
+//	        before; every mode - the real
 //	        ReifyPhantomDirectories + Reconcile plan no change for this endpoint
 //	        at or above the path of an ignored file, link, FIFO, unrecordable
 //	        name or unwalked ignored directory: such content would be removed
@@ -324,7 +325,7 @@ func VerifC03Scan() {
 	vc3Classify(root, "", false, true, g, &items)
 
 	// ---- (plan) ----
-	for av := 0; av < 2; av++ {
+	for av := 0; av < 3; av++ {
 		for nv := 0; nv < 2; nv++ {
 			for mode := SynchronizationMode_SynchronizationModeTwoWaySafe; mode <= SynchronizationMode_SynchronizationModeOneWayReplica; mode++ {
 				vc3CheckPlan(snap.Content, items, av, nv, mode)
@@ -380,8 +381,17 @@ func VerifC03Scan() {
 func vc3CheckPlan(scanned *Entry, items []vc3Item, av, nv int, mode SynchronizationMode) {
 	// the other endpoint
 	other := &Entry{Kind: EntryKind_Directory, Contents: map[string]*Entry{"o": vtClone(scanned.Contents["o"])}}
-	if av == 1 {
+	switch av {
+	case 1: // a file where the scanned endpoint has the directory "e"
 		other.Contents["e"] = &Entry{Kind: EntryKind_File, Digest: []byte{0x5a, 0x21}}
+	case 2: // what was synchronized before, with the re-included "e/s/k" deleted
+		other = vc3SyncedBefore(scanned)
+		if s, _ := vtAt(other, "e/s"); s != nil {
+			delete(s.Contents, "k")
+			if len(s.Contents) == 0 {
+				s.Contents = nil
+			}
+		}
 	}
 	// the ancestor
 	var anc *Entry
@@ -396,6 +406,9 @@ func vc3CheckPlan(scanned *Entry, items []vc3Item, av, nv int, mode Synchronizat
 	_, _, changes, _ := Reconcile(anc, ro, rs, mode)
 	if len(changes) > 0 {
 		vCover("change-planned-for-scanned-endpoint")
+		if changes[0].Path != "e" {
+			vCover("change-planned-below-the-ignored-directory")
+		}
 	}
 	for _, c := range changes {
 		for _, it := range items {
